@@ -49,9 +49,69 @@ func c14Obj(c cid.Cid, kind iplddecoders.Kind, id int) ObjectWithMetadata {
 	return ObjectWithMetadata{Cid: c, Offset: uint64(100 + id), SectionLength: 3, ObjectData: []byte{0x85, byte(kind), byte(id)}}
 }
 
+// c14AccumBox — the far side of the quantification box through the accumulator: one transaction
+// whose metadata is a large well-formed payload (the frame objects precede the transaction object,
+// in link order or reversed), followed by an ordinary single-frame transaction.
+//
+//	1: 60 frames, fan-out 1 (link depth 59)      2: 60 frames, fan-out 10
+//	3: 60 frames linked by the head alone        4: `bytes` (200 KiB) in 60 frames, fan-out 5
+func c14AccumBox(which int) {
+	n, f := 60, 1
+	lens := func(k int) int { return 1 + k%2 }
+	switch which {
+	case 2:
+		f = 10
+	case 3:
+		f = n
+	case 4:
+		f = 5
+		per := verifParam("bytes", 204800) / n
+		lens = func(k int) int { return per }
+	}
+	reversed := which%2 == 0
+	p := c14HubChain(n, f, reversed, 0, lens, which == 2)
+	var objects []ObjectWithMetadata
+	for k := 1; k < n; k++ {
+		objects = append(objects, c14Obj(p.cids[k], iplddecoders.KindDataFrame, c14AddFrame(p.frames[k])))
+	}
+	if reversed {
+		for i, j := 0, len(objects)-1; i < j; i, j = i+1, j-1 {
+			objects[i], objects[j] = objects[j], objects[i]
+		}
+	}
+	var txData [][]byte
+	for t := 0; t < 2; t++ {
+		td := []byte{byte(0xA0 + t), byte(0xB7 - t)}
+		txData = append(txData, td)
+		tx := &ipldbindcode.Transaction{Kind: int(iplddecoders.KindTransaction), Slot: 7}
+		tx.Data = ipldbindcode.DataFrame{Kind: int(iplddecoders.KindDataFrame), Data: ipldbindcode.Buffer(append([]byte{}, td...))}
+		if t == 0 {
+			tx.Metadata = *p.frames[0]
+		} else {
+			tx.Metadata = ipldbindcode.DataFrame{Kind: int(iplddecoders.KindDataFrame), Data: ipldbindcode.Buffer([]byte{0x5A})}
+		}
+		objects = append(objects, c14Obj(c14Cid(100+t), iplddecoders.KindTransaction, c14AddTx(tx)))
+	}
+	block := &ipldbindcode.Block{Kind: int(iplddecoders.KindBlock), Slot: 7}
+	res, err := ObjectsToTransactionsAndMetadata(block, objects)
+	verifAssert(err == nil, c14Label+": block with a large well-formed metadata payload rejected")
+	verifAssert(len(res) == 2 && len(c14MetaSeen) == 2 && len(c14TxSeen) == 2, c14Label+": number of transactions (large payload)")
+	if len(c14MetaSeen) == 2 && len(c14TxSeen) == 2 {
+		verifAssert(bytes.Equal(c14MetaSeen[0], p.orig), c14Label+": large metadata payload handed to the parser differs from the original")
+		verifAssert(bytes.Equal(c14MetaSeen[1], []byte{0x5A}), c14Label+": metadata of the following transaction differs")
+		verifAssert(bytes.Equal(c14TxSeen[0], txData[0]) && bytes.Equal(c14TxSeen[1], txData[1]), c14Label+": transaction bytes differ (large payload)")
+	}
+	verifReach("box")
+	verifReach("end")
+}
+
 func VerifC14Accum() {
 	c14ResetNodes()
 	c14MetaSeen, c14TxSeen = nil, nil
+	if box := verifChoice("box", 1+verifParam("box", 4)); box > 0 {
+		c14AccumBox(box)
+		return
+	}
 	K := verifParam("txs", 2)
 	maxN := verifParam("N", 3)
 	hashMode := verifChoice("checksum", 3) // 0 CRC64, 1 legacy FNV-1a, 2 absent
